@@ -19,7 +19,8 @@
 (*                    return (the callback goroutine finishes the close); else close(): state -> closed, clean (leave     *)
 (*                    the table, recycle buffers); if it was open: closeNotify, OnRemoteClose (session closed) or         *)
 (*                    OnLocalClose, and (session open) tell the peer: close element on the queue + wakeUpPeer.            *)
-(*  Stream.Flush    : check state (s_chk) . queue put + wakeUpPeer (s_put): CAS working flag, if won write a polling     *)
+(*  Stream.Flush    : (the user first writes one byte into the BufferWriter: allocShmBuffer touches the mapped buffer     *)
+(*                    memory) check state (s_chk) . queue put + wakeUpPeer (s_put): CAS working flag, if won write a polling     *)
 (*                    event; a failed write calls exitErr from the writer's goroutine and Flush still returns nil.        *)
 (*  pending calls   : reader parked in readMore (recvNotifyCh | closeNotifyCh), AcceptStream parked on acceptCh |         *)
 (*                    shutdownCh, a fallback Flush parked in waitForSendErr while the send loop is blocked in write on    *)
@@ -363,12 +364,15 @@ TdQueue == /\ Step("loop") /\ pc["loop"] = "t_q"
 \* the writer thread "w": Stream.Flush of one message through shared memory, and Stream.Close by the user
 SendCheck(s) == /\ Start /\ Op /\ pc["w"] = "idle" /\ s \notin CbStreams
                 /\ ws' = s /\ sendLate' = (shutdown = 1)
-                /\ IF st[s] = "open"
-                     THEN pc' = [pc EXCEPT !["w"] = "s_put"] /\ lastSend' = "none"
-                     ELSE pc' = pc /\ lastSend' = "err"
+                /\ IF bm = "released"    \* BufferWriter.WriteString allocates from the free list of the unmapped memory
+                     THEN pc' = pc /\ lastSend' = "fault" /\ kf' = kf \cup {"write-after-teardown-faults"}
+                     ELSE /\ kf' = kf
+                          /\ IF st[s] = "open"
+                               THEN pc' = [pc EXCEPT !["w"] = "s_put"] /\ lastSend' = "none"
+                               ELSE pc' = pc /\ lastSend' = "err"
                 /\ UNCHANGED <<shutdown, serr, shutCh, ret, lambdas, batch, conn, link, hup, inbox, flag, st, inTable,
                                tableNil, notified, cbBusy, waitExit, cbL, cbR, unread, peerClosed, rd, fl, acc, bm, qm,
-                               sendLoop, snap, cur, tdRuns, nsent, npc, lastOpen, openAtDeath, kf>>
+                               sendLoop, snap, cur, tdRuns, nsent, npc, lastOpen, openAtDeath>>
 
 \* queue put + wakeUpPeer.  A write on a connection that is closing / whose peer is gone fails: exitErr from this goroutine
 WriteFails == conn # "open" \/ link = "down"
@@ -377,7 +381,7 @@ SendPut == /\ Step("w") /\ pc["w"] = "s_put"
                 THEN /\ lastSend' = "fault" /\ kf' = kf \cup {"stream-op-races-unmap"}
                      /\ pc' = [pc EXCEPT !["w"] = "idle"] /\ UNCHANGED <<flag, ret>>
                 ELSE /\ lastSend' = "ok"
-                     /\ kf' = IF sendLate THEN kf \cup {"flush-ok-after-close"} ELSE kf
+                     /\ kf' = IF sendLate THEN kf \cup {"flush-nil-after-close"} ELSE kf
                      /\ IF flag = 0
                           THEN /\ flag' = 1
                                /\ IF WriteFails
